@@ -58,7 +58,7 @@ def run(ctx):
 def shell_list(case):
     """the shell's --list-unknown prints the list of the library, one name per line"""
     import shellrun
-    r = shellrun.run_shell({'files': {'d.tex': case['src']}, 'main': ['d.tex'], 'args': ['--list-unknown', '--packages', '*'], 'spec': {}})
+    r = shellrun.run_shell({'files': {'d.tex': case['src']}, 'main': ['d.tex'], 'args': ['--list-unknown', '--packages', '*'] + list(case.get('extra') or []), 'spec': {}})
     a = t2t.run_case({'src': case['src'], 'opts': {'pack': '*', 'unkn': True}, 'multi': False, 'want_toks': False})
     return r, a
 
@@ -71,7 +71,7 @@ def shell_cases(ctx):
         envs = rng.sample(['my remark', 'proof of claim', 'claim', 'remarque', 'long env name here', 'x y'], 2)
         src = '%s \\mycmd{%s} \\begin{%s} %s \\end{%s}\n\\foo %s \\begin{%s}\n%s \\zzz\n\\end{%s} $\\mathonly$ %s\n' % (
             names.word(), names.word(), envs[0], names.word(), envs[0], names.word(), envs[1], names.word(), envs[1], names.word())
-        cases.append({'src': src})
+        cases.append({'src': src, 'extra': rng.choice([[], ['--multi-language'], ['--output', 'html'], ['--single-letters', 'a'], ['--multi-language', '--language', 'de-DE']])})
     for c, (r, a) in zip(cases, ctx.pmap(shell_list, cases)):
         ctx.case(('shell', c['src'])); ctx.count('shell_list_cases')
         if r['rc'] != 0 or a['outcome'] != 'ok':
@@ -79,7 +79,7 @@ def shell_cases(ctx):
         got = [l for l in r['stdout'].split('\n') if l != '' and not l.startswith('===')]
         want = [l for l in a['txt'].split('\n') if l != '']
         if got != want:
-            ctx.violation('yalafi.shell --list-unknown prints %r, the list of the library is %r' % (got, want), src=c['src'], opts={}, kind='shell-list')
+            ctx.violation('yalafi.shell --list-unknown %s prints %r, the list of the library is %r' % (' '.join(c['extra']), got, want), src=c['src'], opts={}, kind='shell-list', extra=c['extra'])
 
 def judge_witness(w):
     c = {'src': w['src'], 'opts': dict(w.get('opts') or {}, unkn=True), 'multi': False}
@@ -91,7 +91,7 @@ def judge_witness(w):
 def replay(data):
     v = data['violation']
     if v.get('kind') == 'shell-list':
-        r, a = shell_list({'src': v['src']})
+        r, a = shell_list({'src': v['src'], 'extra': v.get('extra')})
         got = [l for l in r['stdout'].split('\n') if l != '' and not l.startswith('===')]
         want = [l for l in (a.get('txt') or '').split('\n') if l != '']
         print('ok' if got == want else 'shell prints %r, library %r' % (got, want))
